@@ -42,58 +42,58 @@ pub struct PropSpec {
 pub fn spec(prop: &str) -> Option<PropSpec> {
     let s = |id, level, quick_runs, thorough_runs, nontrivial_any, nontrivial_all, rule, reach| PropSpec { id, level, quick_runs, thorough_runs, nontrivial_any, nontrivial_all, rule, reach };
     Some(match prop {
-        "C01" => s("C01", "exploration", 6000, 120000, &["probe.child_delivered_before_parent", "probe.block_before_pack", "probe.meld_items"], &["probe.pair_compared"],
+        "C01" => s("C01", "exploration", 100000, 1500000, &["probe.child_delivered_before_parent", "probe.block_before_pack", "probe.meld_items"], &["probe.pair_compared"],
             "seeded multi-replica histories (update/commit/meld/refresh/resolve/unstage/time travel, file-by-file transport with drop/dup/reorder/partition); non-trivial = two replicas with equal item sets were compared AND items travelled (meld or out-of-causal-order file delivery); distinct = distinct op/fault sequence hash",
             &["probe.pair_compared", "probe.converge", "probe.child_delivered_before_parent", "probe.block_before_pack", "probe.reopen_compared", "probe.conflict_at_sync", "probe.array_in_conflict_at_sync"]),
-        "C02" => s("C02", "exploration", 6000, 120000, &["probe.block_held_back"], &["probe.ref_compared"],
+        "C02" => s("C02", "exploration", 100000, 1500000, &["probe.block_held_back"], &["probe.ref_compared"],
             "histories in which single block/pack files are delivered one at a time in seeded (biased) orders with a refresh after deliveries; non-trivial = at least one block was observed held back at a sync point; distinct = distinct op/fault sequence hash",
             &["probe.block_held_back", "probe.held_back_depth_ge_2", "probe.child_delivered_before_parent", "probe.block_before_pack", "probe.deliver_duplicate"]),
-        "C03" => s("C03", "exploration", 6000, 120000, &["probe.reopen_compared"], &["probe.commit_ok"],
+        "C03" => s("C03", "exploration", 100000, 1500000, &["probe.reopen_compared"], &["probe.commit_ok"],
             "histories with nasty JSON content and 1..n staged operations between commits; after every successful commit a second replica is opened on the same storage and compared; non-trivial = at least one commit was compared with a fresh open; distinct = distinct op sequence hash",
             &["probe.reopen_compared", "probe.objop"]),
-        "C04" => s("C04", "exploration", 8000, 150000, &["probe.read_checked_exact", "probe.read_checked_array_conflict"], &[],
+        "C04" => s("C04", "exploration", 150000, 2250000, &["probe.read_checked_exact", "probe.read_checked_array_conflict"], &[],
             "documents from the generator family submitted in reachable states; read compared with the submitted document after every update; non-trivial = at least one update was checked; distinct = distinct op sequence hash",
             &["probe.read_checked_exact", "probe.read_checked_array_conflict", "probe.update_twice", "probe.commit_nothing_staged"]),
-        "C05" => s("C05", "exploration", 5000, 100000, &["probe.tree_prefix_checked"], &["probe.tree_checked"],
+        "C05" => s("C05", "exploration", 60000, 900000, &["probe.tree_prefix_checked"], &["probe.tree_checked"],
             "every object of every replica at every sync point and after every staging op: winner/conflicts vs the reference rule on the recorded revision set, plus re-insertion in seeded permutations with a check after every prefix; non-trivial = at least one tree with >= 2 revisions was permuted; distinct = distinct op sequence hash",
             &["probe.tree_prefix_checked", "probe.tree_prefix_dangling_parent", "probe.conflict_at_sync", "probe.three_live_leaves", "probe.revision_index_ge_10", "probe.resolve"]),
-        "C11" => s("C11", "exploration", 6000, 120000, &["probe.write_checked"], &["probe.delivered"],
+        "C11" => s("C11", "exploration", 100000, 1500000, &["probe.write_checked"], &["probe.delivered"],
             "every write of every replica checked against its name; all items of all replicas compared byte-wise after every op; non-trivial = items were written and also travelled between replicas; distinct = distinct op sequence hash",
             &["probe.write_checked", "probe.meld_items", "probe.delivered", "probe.deliver_duplicate"]),
-        "C12" => s("C12", "exploration", 6000, 120000, &["probe.commit_ok", "probe.snapshot", "probe.meld_items"], &[],
+        "C12" => s("C12", "exploration", 100000, 1500000, &["probe.commit_ok", "probe.snapshot", "probe.meld_items"], &[],
             "read() compared before/after commit, snapshot, meld and idle refresh/reload in reachable states; non-trivial = at least one such operation ran; distinct = distinct op sequence hash",
             &["probe.commit_with_array_conflict", "probe.commit_with_object_conflict", "probe.snapshot_staged_something", "probe.meld_items"]),
-        "C13" => s("C13", "exploration", 6000, 120000, &["probe.block_read_back"], &["probe.commit_ok"],
+        "C13" => s("C13", "exploration", 100000, 1500000, &["probe.block_read_back"], &["probe.commit_ok"],
             "commit graph monitors around every commit and at every sync point; non-trivial = blocks were read back and compared with their files; distinct = distinct op sequence hash",
             &["probe.block_read_back", "probe.checkpoint_multihead", "probe.block_index_ge_10"]),
-        "C14" => s("C14", "exploration", 5000, 100000, &["probe.reload_until"], &[],
+        "C14" => s("C14", "exploration", 60000, 900000, &["probe.reload_until"], &[],
             "reload_until / new_until for heads the replica had before, compared with the recorded checkpoint and the reference restricted to ancestors; non-trivial = at least one time travel executed; distinct = distinct op sequence hash",
             &["probe.reload_until", "probe.reload_until_multihead", "probe.history_rev_checked"]),
-        "C15" => s("C15", "exploration", 6000, 120000, &["probe.unstage_compared", "probe.stage_roundtrip", "probe.refresh_with_stage"], &[],
+        "C15" => s("C15", "exploration", 100000, 1500000, &["probe.unstage_compared", "probe.stage_roundtrip", "probe.refresh_with_stage"], &[],
             "staged operations of any mix followed by unstage / export+replay / commit / refused refresh; non-trivial = at least one of those comparisons ran; distinct = distinct op sequence hash",
             &["probe.unstage_compared", "probe.stage_roundtrip", "probe.refresh_with_stage", "probe.objop", "probe.resolve"]),
-        "C16" => s("C16", "exploration", 5000, 100000, &["probe.array_revision_reconstructed"], &[],
+        "C16" => s("C16", "exploration", 60000, 900000, &["probe.array_revision_reconstructed"], &[],
             "chains of successive versions of flattened arrays with commits, snapshots and reopen under drawn cache capacities; non-trivial = stored revisions were reconstructed by the reference and compared with the submitted order; distinct = distinct op sequence hash",
             &["probe.array_revision_reconstructed", "probe.snapshot_staged_something"]),
-        "C19" => s("C19", "exploration", 5000, 100000, &["probe.identifier_checked"], &["probe.order_pair_checked"],
+        "C19" => s("C19", "exploration", 60000, 900000, &["probe.identifier_checked"], &["probe.order_pair_checked"],
             "every revision identifier of every tree at every sync point and after staging ops: print/parse, construction rule, content digest, order axioms; non-trivial = identifiers and pairs were checked; distinct = distinct op sequence hash",
             &["probe.identifier_checked", "probe.identifier_content_checked", "probe.order_triple_checked", "probe.identifier_index_ge_10"]),
-        "C08" => s("C08", "exploration", 8000, 150000, &["probe.commit_with_array_conflict", "probe.commit_with_object_conflict", "probe.resolve", "probe.snapshot"], &[],
+        "C08" => s("C08", "exploration", 100000, 1500000, &["probe.commit_with_array_conflict", "probe.commit_with_object_conflict", "probe.resolve", "probe.snapshot"], &[],
             "every public call under catch_unwind with the lock shim; non-trivial = operations ran in conflicted states; distinct = distinct op sequence hash",
             &["probe.commit_with_array_conflict", "probe.commit_with_object_conflict", "probe.resolve_array", "probe.refresh_with_stage", "probe.reload_until"]),
-        "C07" => s("C07", "exploration", 6000, 120000, &["probe.resolve"], &[],
+        "C07" => s("C07", "exploration", 100000, 1500000, &["probe.resolve"], &[],
             "conflicted states reached by concurrent edits; resolve_as for a seeded leaf; propagation by Converge; non-trivial = at least one resolution ran; distinct = distinct op sequence hash",
             &["probe.resolve", "probe.resolve_array", "probe.resolve_to_deletion", "probe.resolve_3plus_leaves", "probe.converge"]),
-        "C06" => s("C06", "exploration", 6000, 120000, &["probe.array_merge_checked"], &[],
+        "C06" => s("C06", "exploration", 100000, 1500000, &["probe.array_merge_checked"], &[],
             "concurrent array edits on 2-4 replicas followed by synchronisation; constraints (1)-(5) of DESIGN 5.6 evaluated on read; non-trivial = at least one array with >= 2 live leaves was checked; distinct = distinct op sequence hash",
             &["probe.array_merge_checked"]),
-        "C09" => s("C09", "fault_enumeration", 1500, 40000, &["enum.crash_points"], &["enum.write_failures"],
+        "C09" => s("C09", "fault_enumeration", 25000, 375000, &["enum.crash_points"], &["enum.write_failures"],
             "per generated history, for (up to 6) commit and meld operations in it: EVERY storage-write boundary is a crash point (snapshot of the durable map, reopened), and EVERY write position fails once, 2x and 3x in a row, plus a full disk, followed by retries; histories are sampled, boundaries and positions are enumerated completely; non-trivial = a history in which at least one target was enumerated; distinct = distinct op sequence hash",
             &["enum.commit_targets", "enum.meld_targets", "enum.crash_points", "enum.write_failures", "enum.retries_completed", "fault.write_err", "fault.disk_full", "fault.crash_snapshot"]),
-        "C10" => s("C10", "fault_enumeration", 600, 12000, &["enum.damage_cases"], &["probe.damage_open_ok"],
+        "C10" => s("C10", "fault_enumeration", 20000, 300000, &["enum.damage_cases"], &["probe.damage_open_ok"],
             "per generated history, on the richest store: for EVERY item bit flips at first/last/8 seeded positions (thorough: every byte), truncation to 0/1/mid/len-1 (thorough: every length), deletion, all pairs of deletions (thorough: triples), and a fixed list of junk-file classes; at rest then open, and in transit then refresh; non-trivial = a history whose damage cases were enumerated and at least one damaged store opened; distinct = distinct op sequence hash",
             &["enum.damage_cases", "enum.damage_cases_in_transit", "probe.damage_open_ok", "probe.damage_open_err", "probe.damage_value_checked", "fault.damage_bitflip", "fault.damage_truncate", "fault.damage_delete", "fault.damage_junk"]),
-        "C18" => s("C18", "exploration", 1500, 30000, &["enum.config_variants"], &[],
+        "C18" => s("C18", "exploration", 6000, 90000, &["enum.config_variants"], &[],
             "per generated history the same op file is re-executed under >= 4 other hash seeds, 3 listing permutations, 3 parallel-loop orders, a seeded half of the 4x4 cache-capacity grid and one all-varied configuration; semantic digests of all replicas compared after every op; non-trivial = a history whose matrix was executed; distinct = distinct op sequence hash",
             &["enum.config_variants", "fault.config_hash", "fault.config_listing", "fault.config_parallel-loop", "fault.config_cache", "probe.conflict_at_sync"]),
         _ => return None,
@@ -252,7 +252,7 @@ pub fn cmd_check(args: &[String]) -> i32 {
     let seed: u64 = arg(args, "--seed").and_then(|s| s.parse().ok()).or_else(|| std::env::var("VERIF_SEED").ok().and_then(|s| s.parse().ok())).unwrap_or(DEFAULT_SEED);
     let runs: u64 = arg(args, "--runs").and_then(|s| s.parse().ok()).unwrap_or(if tier == "quick" { sp.quick_runs } else { sp.thorough_runs });
     let jobs: u64 = arg(args, "--jobs").and_then(|s| s.parse().ok()).unwrap_or_else(|| std::thread::available_parallelism().map(|n| n.get() as u64).unwrap_or(4).min(16));
-    let deadline_ms: u64 = arg(args, "--deadline-ms").and_then(|s| s.parse().ok()).unwrap_or(if tier == "quick" { 70_000 } else { 1_200_000 });
+    let deadline_ms: u64 = arg(args, "--deadline-ms").and_then(|s| s.parse().ok()).unwrap_or(if tier == "quick" { 75_000 } else { 1_500_000 });
     let t0 = Instant::now();
     let exe = std::env::current_exe().expect("current_exe");
     let work = format!("{}/.work/{}", verif_home(), std::process::id());
@@ -312,6 +312,33 @@ pub fn cmd_check(args: &[String]) -> i32 {
         violations.extend(v["violations"].as_array().unwrap().iter().cloned());
     }
     let _ = std::fs::remove_dir_all(&work);
+    // regression corpus: replay files of repaired defects of this property must stay clean
+    let mut regress_run = 0u64;
+    if let Ok(rd) = std::fs::read_dir(format!("{}/regress", verif_home())) {
+        let mut files: Vec<String> = rd.filter_map(|e| e.ok()).map(|e| e.path().to_string_lossy().to_string()).filter(|p| p.ends_with(".json")).collect();
+        files.sort();
+        for f in files {
+            let is_mine = std::fs::read_to_string(&f).ok().and_then(|t| serde_json::from_str::<Value>(&t).ok()).map_or(false, |v| v["property"].as_str() == Some(prop.as_str()));
+            if !is_mine {
+                continue;
+            }
+            regress_run += 1;
+            let o = std::process::Command::new(&exe).args(["replay", &f]).output().expect("replay");
+            let so = String::from_utf8_lossy(&o.stdout).to_string();
+            match o.status.code() {
+                Some(0) => {}
+                Some(1) => {
+                    let class = so.lines().find(|l| l.starts_with("class=")).and_then(|l| l.split_whitespace().next()).unwrap_or("class=?").trim_start_matches("class=").to_string();
+                    let detail = so.lines().skip_while(|l| !l.starts_with("class=")).skip(1).collect::<Vec<_>>().join("\n");
+                    violations.push(json!({"replay": f, "class": class, "detail": format!("a repaired defect is back (regression corpus): {}", detail), "check": "regression-corpus", "run_seed": 0}));
+                }
+                _ => {
+                    eprintln!("HARNESS-ERROR regression replay {} failed to run\n{}", f, so);
+                    harness_error = true;
+                }
+            }
+        }
+    }
     // every reported violation must reproduce from its replay file in a fresh process
     let mut confirmed: Vec<Value> = vec![];
     for v in &violations {
@@ -368,6 +395,7 @@ pub fn cmd_check(args: &[String]) -> i32 {
         "inconclusive_runs": inconclusive,
         "known_finding_runs": known,
         "enumerated": stats.iter().filter(|(k, _)| k.starts_with("enum.")).map(|(k, v)| (k.clone(), json!(v))).collect::<Map<String, Value>>(),
+        "regression_replays_run": regress_run,
         "components": components(),
         "exhaustive": false,
     }));
